@@ -34,7 +34,7 @@ from pony.orm.core import db_session
 LEVEL = 'exploration'
 
 # names of the deviations QuerySem.tla can reproduce (cx.dev), in the order in which they are tried
-DEVIATIONS = ['nonzero', 'strnotin', 'innerjoin', 'ordbag', 'sqldiv', 'ifexpfilter']
+DEVIATIONS = ['nonzero', 'strnotin', 'innerjoin', 'ordbag', 'sqldiv', 'ifexpfilter', 'notsubq']
 
 
 def clear_pony_caches(db):
@@ -219,7 +219,7 @@ def run(ctx):
     ctx.assumptions += [
         'RefEval (QuerySem.tla) is the reading of the property: 3-valued comparisons, Kleene connectives, None falsy in truth '
         'tests, aggregates ignore missing values; validated against CPython on the None-free data sets in this run',
-        'a missing element of a collection in a failed membership test may count as unknown (SQL) or be ignored (Python): both answers accepted',
+        'membership tests: a missing tested value gives unknown, a missing element of the collection is ignored (Python defines `v not in [.., None]`)',
         'the relative position of rows whose sort key is missing is not compared',
         'any exception raised by Pony instead of an answer is accepted (counted in ways_raised_by_exception)',
     ]
